@@ -25,14 +25,34 @@ theorem q2_no_arr {α : Type} {m : M α} (h : Q2 false m) (e : Env) : m e ≠ .p
   rw [hm] at this
   exact this.2.2 rfl rfl
 
+theorem quiet_callNative_other (argc : Int) (x : ExtRec) (l : L) : QuietF false l (exec (.callNative .other argc) x l) := by
+  simp only [exec]
+  quietF_tac
+theorem quiet_callNative_index (argc : Int) (x : ExtRec) (l : L) : QuietF false l (exec (.callNative .index argc) x l) := by
+  simp only [exec]
+  quietF_tac
+theorem quiet_callNative_slice (argc : Int) (x : ExtRec) (l : L) : QuietF false l (exec (.callNative .slice argc) x l) := by
+  simp only [exec]
+  quietF_tac
+
+theorem quietF_no_arr {l : L} {m : M (Ctl × L)} (h : QuietF false l m) (e : Env) : m e ≠ .panic .assertArray := by
+  intro hm
+  have := h e
+  rw [hm] at this
+  exact this.2.2 rfl rfl
+
 theorem callNative_noArr (C : Checked S) {kind : NativeKind} {argc : Int} {x : ExtRec} {l : L} {e : Env}
     (hk : keyOK (.callNative kind argc) (stackList e.stack) x)
     (hc : codeAt S l.pc = some (.callNative kind argc)) (hI1 : Inv S l e) :
     exec (.callNative kind argc) x l e ≠ .panic .assertArray := by
+  intro hpan0
+  revert hpan0
   rcases hI1.cases with ⟨hb, A, hV, G, _, _, hM⟩ | ⟨hb, A, hV, G, _, _, hN⟩
   · simp only [exec, hb, if_true]
     intro h; cases h
-  · obtain ⟨herr, a, succs, ha, hst, hsucc, hpc, hp, hconf⟩ := hN.unpack C hc
+  · intro hpan0
+    revert hpan0
+    obtain ⟨herr, a, succs, ha, hst, hsucc, hpc, hp, hconf⟩ := hN.unpack C hc
     simp only [step1] at hst
     split at hst
     · rename_i hh
@@ -46,9 +66,10 @@ theorem callNative_noArr (C : Checked S) {kind : NativeKind} {argc : Int} {x : E
       rw [stackList_view hV, hstk] at hk
       have hargs := popArgs_spec argc.toNat (A := { A with stk := r }) hV1 G1 hlenr
       unfold WP at hargs
-      simp only [exec]
-      rw [if_neg (by rw [hb]; simp), bind_ok_eq hpop, if_neg (by omega)]
-      intro hpan
+      intro hpan0
+      have hpan := hpan0
+      simp only [exec] at hpan
+      rw [if_neg (by rw [hb]; simp), bind_ok_eq hpop, if_neg (by omega)] at hpan
       rcases bind_panic_inv hpan with h | ⟨args, e2, hpa, hrest⟩
       · exact q2_no_arr (Q2.popArgs _) _ h
       · rw [hpa] at hargs
@@ -72,35 +93,9 @@ theorem callNative_noArr (C : Checked S) {kind : NativeKind} {argc : Int} {x : E
             · exact q2_no_arr Q2.tracking _ h
             · split at hrest3
               · cases kind with
-                | other => simp [pure, M.pure] at hrest3
-                | index =>
-                  have hq : Quiet2 false l (match args with
-                      | [] => VM.panic .argsSlice
-                      | _ :: rest => do
-                        if !(← pathIntact x) then pure (.brk, { l with err := some (vmErr .invalidPath x) }) else
-                        match rest with
-                        | a1 :: _ => do pathsPush (.pv a1 w); pure (.fall, l)
-                        | [] => VM.panic .argsSlice) := by quiet2_tac
-                  have := hq e4
-                  simp only at hrest3
-                  rw [hrest3] at this
-                  exact this.2.2 rfl rfl
-                | slice =>
-                  have hq : Quiet2 false l (match args with
-                      | [] => VM.panic .argsSlice
-                      | _ :: rest => do
-                        if !(← pathIntact x) then pure (.brk, { l with err := some (vmErr .invalidPath x) }) else
-                        match rest with
-                        | a1 :: a2 :: _ => do
-                          let e ← asJV a1
-                          let s ← asJV a2
-                          pathsPush (.pv (.jv (.obj [(Bytes.ofString "end", e), (Bytes.ofString "start", s)])) w)
-                          pure (.fall, l)
-                        | _ => VM.panic .argsSlice) := by quiet2_tac
-                  have := hq e4
-                  simp only at hrest3
-                  rw [hrest3] at this
-                  exact this.2.2 rfl rfl
+                | other => exact absurd hpan0 (quietF_no_arr (quiet_callNative_other argc x l) e)
+                | index => exact absurd hpan0 (quietF_no_arr (quiet_callNative_index argc x l) e)
+                | slice => exact absurd hpan0 (quietF_no_arr (quiet_callNative_slice argc x l) e)
                 | getpath =>
                   simp only [keyOK, hcall] at hk
                   obtain ⟨x0, ps, r', hkr, hnull⟩ := hk
